@@ -90,6 +90,17 @@ func b2i(b bool) int {
 	return 0
 }
 
+// maybeDone hands every third caller a context that is already cancelled
+func (h *regHarness) maybeDone(ctx context.Context) context.Context {
+	h.doneSeq++
+	if h.doneSeq%3 != 0 {
+		return ctx
+	}
+	c, cancel := context.WithCancel(ctx)
+	cancel()
+	return c
+}
+
 func asRec(n eventlogger.Node) *recNode {
 	if w, ok := n.(*wrapRec); ok {
 		return w.inner
@@ -227,6 +238,7 @@ type regHarness struct {
 	closed      []int
 	reopenCalls []int
 	failInst    int
+	doneSeq     int
 	failOnce    bool
 	failedOnce  bool
 	curType     string
@@ -274,6 +286,7 @@ func (h *regHarness) reset() {
 	h.thr = map[int][2]int{}
 	h.caseOps = nil
 	h.diverged = false
+	h.doneSeq = 0
 }
 
 func nid(i int) eventlogger.NodeID {
@@ -628,7 +641,9 @@ func (h *regHarness) exec(line string) string {
 		id := atoi(f[1])
 		before := h.observable()
 		h.closed = nil
-		err := h.b.RemoveNode(ctx, nid(id))
+		// every third removal is asked for with a context that is already done (a caller shutting down): the
+		// call does what it does all the same -- the node is closed and unregistered, or nothing changes
+		err := h.b.RemoveNode(h.maybeDone(ctx), nid(id))
 		r := classify(err)
 		h.st.hit("rmnode:" + r)
 		sn, exists := h.nodes[id]
@@ -744,7 +759,7 @@ func (h *regHarness) exec(line string) string {
 			h.rpanSiblings = sibs
 			h.mu.Unlock()
 		}
-		ok, err := h.b.RemovePipelineAndNodes(ctx, tyS(ty), pidS(pid))
+		ok, err := h.b.RemovePipelineAndNodes(h.maybeDone(ctx), tyS(ty), pidS(pid))
 		h.mu.Lock()
 		h.rpanSiblings = nil
 		h.mu.Unlock()
@@ -940,11 +955,11 @@ func (h *regHarness) exec(line string) string {
 		h.reopenCalls = nil
 		h.failInst = fail
 		// every third failure is transient: the node's Reopen fails once and would succeed if it were asked again
-		h.failOnce = h.st.Ops%3 == 0
+		h.failOnce = len(h.caseOps)%3 == 0
 		h.failedOnce = false
 		h.mu.Unlock()
 		rctx := ctx
-		if h.st.Ops%2 == 0 {
+		if len(h.caseOps)%2 == 0 {
 			// every other Reopen is given a context that is already done: it reaches every node all the same
 			c2, cancel := context.WithCancel(ctx)
 			cancel()
